@@ -3,6 +3,7 @@ import FV.IoAsync
 import FV.IoAsyncRecv
 import FV.IoSendSeq
 import FV.IoRecvRetry
+import FV.IoAsyncSeq
 /-! Model side of the IO suites (`S`, `R`, `AS`, `AR`, `AP` lines). -/
 open FV
 namespace Drv
@@ -69,13 +70,13 @@ def sendAllA (t : Ty) : List Init → List AEv → SendSt → List String → Li
       match o.res with
       | .error e => sendAllA t is evs st1 (s!"emplace:{errStr e}" :: acc)
       | .ok () =>
-        if st.poisoned then sendAllA t is evs st1 ("PANIC" :: acc)
+        if st.poisoned then sendAllA t is evs { st1 with msgs := st.msgs ++ [[]] } ("PANIC" :: acc)
         else match t.dict.size ⟨0, o.bytes⟩ with
           | .ok z =>
             let (p, a, evs') := arun (o.bytes.take z) evs ⟨0, st.sink, false⟩
             let res := match p with | .done => "ok" | .brokenPipe => "err:BrokenPipe" | .err k => "err:" ++ kindName k | .flushErr k => "err:" ++ kindName k
                                     | .pending => "STUCK" | .blocked => "BLOCKED"
-            sendAllA t is evs' { st1 with sink := a.sink, poisoned := a.poisoned, used := st.used + (evs.length - evs'.length) } (res :: acc)
+            sendAllA t is evs' { st1 with sink := a.sink, poisoned := a.poisoned, used := st.used + (evs.length - evs'.length), msgs := st.msgs ++ [o.bytes.take z] } (res :: acc)
           | _ => sendAllA t is evs st1 ("FAULT" :: acc)
     | _ => (("FAULT" :: acc).reverse, st)
 
@@ -94,7 +95,13 @@ def runS (t : Ty) (max : Nat) (script : List SEv) (inits : List Init) (async : B
   let (_, s2) := go 0xFF (substL 0xEE 0x11 inits)
   -- the session function the C09 theorems are about (`sendSeq`) must tell the same story as the message-by-message run above
   let cross : Bool :=
-    if async then false else
+    if async then
+      let (rs, fin) := asendSeq s1.msgs ⟨[], false, toAEvs script tail⟩
+      -- `flushFailed` and `failed` both show as an error to the caller
+      let cls (x : String) : Option Bool := if x == "ok" then some true else if x.startsWith "err:" || x == "BLOCKED" || x == "STUCK" || x == "PANIC" then some false else none
+      let want := r1.filterMap cls
+      !(fin.sink == s1.sink && fin.poisoned == s1.poisoned && rs.map (fun r => r == ASendR.ok) == want)
+    else
       let (rs, fin) := sendSeq s1.msgs ⟨[], false, toWriteEvs script tail⟩
       let cls (x : String) : Option SendR := if x == "ok" then some .ok else if x.startsWith "err:" || x == "BLOCKED" then some .failed else if x == "PANIC" then some .refused else none
       let want := r1.filterMap cls
